@@ -1,0 +1,49 @@
+/*
+ * Verification hooks (add-only instrumentation).  Everything in this header is inert unless the
+ * library is compiled with -DDISPENSO_VERIF: the macros expand to nothing and no symbol is
+ * referenced.  With the define on, DISPENSO_VERIF_POINT(site, addr) calls a weak function that a
+ * verification harness may provide (a cooperative scheduler that serialises threads at these
+ * points); when no harness provides it the call is skipped.
+ */
+
+#pragma once
+
+#if defined(DISPENSO_VERIF)
+
+struct timespec;
+
+extern "C" {
+// Called immediately before a shared-memory access of an instrumented component.
+void dispenso_verif_point(const char* site, const void* addr) __attribute__((weak));
+// Futex interposition: returns 1 and stores the result in *result when the harness served the
+// call, 0 when the real system call must be made.
+int dispenso_verif_futex(
+    int* uaddr,
+    int futex_op,
+    int val,
+    const struct timespec* timeout,
+    int* result) __attribute__((weak));
+// Event notification for components modelled at event granularity (thread pool).
+void dispenso_verif_event(const char* event, const void* obj, long a, long b) __attribute__((weak));
+}
+
+#define DISPENSO_VERIF_POINT(site, addr)          \
+  do {                                            \
+    if (dispenso_verif_point) {                   \
+      dispenso_verif_point((site), (addr));       \
+    }                                             \
+  } while (0)
+
+#define DISPENSO_VERIF_EVENT(event, obj, a, b)                                  \
+  do {                                                                          \
+    if (dispenso_verif_event) {                                                 \
+      dispenso_verif_event((event), (obj), (long)(a), (long)(b));               \
+    }                                                                           \
+  } while (0)
+
+#else
+
+#define DISPENSO_VERIF_POINT(site, addr) ((void)0)
+#define DISPENSO_VERIF_EVENT(event, obj, a, b) ((void)0)
+
+#endif // DISPENSO_VERIF
